@@ -547,6 +547,23 @@ pub fn tampers(spec: &Spec, rng: &mut Rng, all_bits: bool, out: &mut Vec<Input>)
         let mut s = spec.clone();
         s.items.push((rlp_bytes(b"zzzz"), rlp_bytes(b"x")));
         out.push(inp("t-add-pair", "reject", s.encode_with_sig(&sig_item), kind));
+        // a dangling item: one more item inside the list after the last pair (a key without a
+        // value), the signature still the one over the record without it
+        let rl = rng.range(2, 40) as usize;
+        for extra in [
+            rlp_bytes(LASTKEY),
+            rlp_bytes(b"udp6"),
+            vec![0x80],
+            vec![0xc0],
+            vec![0x01],
+            rlp_bytes(b"a"),
+            rlp_bytes(&rng.bytes(rl)),
+        ] {
+            let mut payload = sig_item.clone();
+            payload.extend_from_slice(&spec.content());
+            payload.extend_from_slice(&extra);
+            out.push(inp("t-dangling-item", "reject", rlp_list(&payload), kind));
+        }
         if spec.items.len() > 2 {
             let mut s = spec.clone();
             let i = s
@@ -793,6 +810,20 @@ pub fn emit_dec(i: &Input, schemes: &[&str], acc_every: bool, out: &mut String) 
         )
         .unwrap();
         decode_under(s, &i.buf, acc_every, out);
+        // other deserialisers than serde_json's, on a sample (all valid records, some of the rest)
+        if kinds_of(s).contains(&i.kind) {
+            let h = i.buf.iter().fold(i.buf.len() as u32, |a, b| a.wrapping_mul(31).wrapping_add(*b as u32));
+            let take = if i.tag.starts_with("v-") {
+                true
+            } else if i.tag.starts_with("t-") {
+                h % 4 == 0
+            } else {
+                h % 16 == 0
+            };
+            if take && i.buf.len() <= 400 {
+                alt_under(s, &i.buf, out);
+            }
+        }
     }
 }
 
@@ -824,6 +855,32 @@ pub fn gen_dec(rng: &mut Rng, thorough: bool, out: &mut String) {
             spec.encode(r % 4 < 2),
             signer_kind,
         ));
+    }
+    // secp256k1 signatures with a chosen nonce (k = 1/2): r starts with eleven zero bytes
+    for r in 0..(if thorough { 12 } else { 4 }) {
+        let m = rng.below(64);
+        let pairs = reserved_pairs(rng, m);
+        let spec = Spec::new(*rng.pick(&SEQS), pairs, IndKey::gen(rng, Kind::Secp));
+        if let Some(sig) = spec.key.sign_half_nonce(&rlp_list(&spec.content())) {
+            inputs.push(inp("v-half-nonce", "accept", spec.encode_with_sig(&rlp_bytes(&sig)), Kind::Secp));
+            let _ = r;
+        }
+    }
+    // outer headers whose length only fits after truncation to 8 or 16 bits: the header claims
+    // 256 + n (65536 + n) bytes, n bytes of a valid payload follow
+    for kind in [Kind::Secp, Kind::Ed] {
+        let spec = rand_spec(rng, kind);
+        let good = spec.encode(false);
+        if let Some((_, hl, pl)) = rlp_peek(&good) {
+            let payload = &good[hl..hl + pl];
+            for claim in [256 + pl, 65536 + pl, 2 * 65536 + pl, (1usize << 32) + pl] {
+                let lb = be_trim(claim as u64);
+                let mut b = vec![0xf7 + lb.len() as u8];
+                b.extend_from_slice(&lb);
+                b.extend_from_slice(payload);
+                inputs.push(inp("m-length-wraps", "reject", b, kind));
+            }
+        }
     }
     // ed25519 records under small-order public keys: ed25519-dalek's (non-strict) verification
     // accepts R = identity, s = 0 for every message when the key is the neutral element, whatever
@@ -969,8 +1026,14 @@ pub fn gen_stream(rng: &mut Rng, thorough: bool, out: &mut String) {
             }
         }
         for b in base {
-            for suffix_len in [0usize, 1, 2, 17, 169, 250, 700, 1000] {
-                if !thorough && rng.chance(1, 2) && suffix_len != 250 && suffix_len != 0 && suffix_len != 1 {
+            let mut lens = vec![0usize, 1, 2, 17, 169, 250, 700, 1000];
+            if r < 2 || (r >= n_sized && r < n_sized + 2) {
+                // buffer lengths around 2^8 and 2^16 (a length kept in a narrower integer)
+                let l = b.buf.len();
+                lens.extend_from_slice(&[256usize.saturating_sub(l), 256, 65536 - l, 65535, 65536, 65537]);
+            }
+            for suffix_len in lens {
+                if !thorough && suffix_len < 65000 && rng.chance(1, 2) && suffix_len != 250 && suffix_len != 0 && suffix_len != 1 {
                     continue;
                 }
                 let suffix = match rng.below(3) {
@@ -1296,6 +1359,18 @@ pub fn gen_txt(rng: &mut Rng, thorough: bool, out: &mut String) {
             ("x-enr-slashes".into(), "reject", format!("enr://{body}")),
             ("x-prefix-title".into(), "reject", format!("Enr:{body}")),
             ("x-nul-end".into(), "reject", format!("{good}\0")),
+            ("x-tab-end".into(), "reject", format!("{good}\t")),
+            ("x-cr-end".into(), "reject", format!("{good}\r")),
+            ("x-crlf-end".into(), "reject", format!("{good}\r\n")),
+            ("x-formfeed-end".into(), "reject", format!("{good}\x0c")),
+            ("x-nbsp-end".into(), "reject", format!("{good}\u{a0}")),
+            ("x-zwsp-end".into(), "reject", format!("{good}\u{200b}")),
+            ("x-ideographic-space-end".into(), "reject", format!("{good}\u{3000}")),
+            ("x-bom-front".into(), "reject", format!("\u{feff}{good}")),
+            ("x-bom-after-prefix".into(), "reject", format!("enr:\u{feff}{body}")),
+            ("x-tab-front".into(), "reject", format!("\t{good}")),
+            ("x-fullwidth-colon".into(), "reject", format!("enr\u{ff1a}{body}")),
+            ("x-del-end".into(), "reject", format!("{good}\x7f")),
             ("x-percent".into(), "reject", format!("enr%3A{body}")),
             // other encodings of the very same valid record
             ("x-hex-0x".into(), "reject", format!("0x{}", hex::encode(&rec))),
@@ -1342,7 +1417,13 @@ pub fn gen_txt(rng: &mut Rng, thorough: bool, out: &mut String) {
             }
         }
         // bytes appended to the record before encoding
-        for extra in [1usize, 2, 3, 10] {
+        // (for two records also counts at which a length truncated to 8 or 16 bits comes out right)
+        let extras: Vec<usize> = if r < 2 {
+            vec![1, 2, 3, 10, 255, 256, 65535, 65536, 65537, 131072]
+        } else {
+            vec![1, 2, 3, 10]
+        };
+        for extra in extras {
             let mut b = rec.clone();
             b.extend_from_slice(&rng.bytes(extra));
             v.push((
@@ -1434,5 +1515,111 @@ pub fn gen_txt(rng: &mut Rng, thorough: bool, out: &mut String) {
             .unwrap();
             parse_under(scheme, &j, true, out);
         }
+    }
+}
+
+// ---------------------------------------------------------------------------------------------
+// `alt` lines: the record type driven by deserialisers other than serde_json's: byte strings,
+// byte sequences, borrowed / owned strings, wrapped in newtypes and options, from formats that
+// call themselves human-readable and from formats that do not.  Whatever route accepts must hand
+// out an authentic record.
+
+#[derive(Clone)]
+enum AltData {
+    Bytes(Vec<u8>),
+    ByteBuf(Vec<u8>),
+    Seq(Vec<u8>),
+    Str(String),
+    OwnedString(String),
+    Newtype(Box<AltData>),
+    Some(Box<AltData>),
+}
+
+struct AltDe {
+    data: AltData,
+    hr: bool,
+}
+
+impl<'de> serde::Deserializer<'de> for AltDe {
+    type Error = serde::de::value::Error;
+    fn deserialize_any<V: serde::de::Visitor<'de>>(self, v: V) -> Result<V::Value, Self::Error> {
+        let hr = self.hr;
+        match self.data {
+            AltData::Bytes(b) => v.visit_bytes(&b),
+            AltData::ByteBuf(b) => v.visit_byte_buf(b),
+            AltData::Seq(b) => v.visit_seq(serde::de::value::SeqDeserializer::<_, Self::Error>::new(b.into_iter())),
+            AltData::Str(s) => v.visit_str(&s),
+            AltData::OwnedString(s) => v.visit_string(s),
+            AltData::Newtype(d) => v.visit_newtype_struct(AltDe { data: *d, hr }),
+            AltData::Some(d) => v.visit_some(AltDe { data: *d, hr }),
+        }
+    }
+    fn is_human_readable(&self) -> bool {
+        self.hr
+    }
+    serde::forward_to_deserialize_any! {
+        bool i8 i16 i32 i64 i128 u8 u16 u32 u64 u128 f32 f64 char str string bytes byte_buf option
+        unit unit_struct newtype_struct seq tuple tuple_struct map struct enum identifier ignored_any
+    }
+}
+
+fn alt_obs<S: Sch>(scheme: &str, inp: &[u8], out: &mut String) {
+    use serde::Deserialize;
+    let text = String::from_utf8_lossy(inp).to_string();
+    let b64text = format!("enr:{}", b64(inp));
+    let mut routes: Vec<(&str, AltData)> = vec![
+        ("bytes", AltData::Bytes(inp.to_vec())),
+        ("bytebuf", AltData::ByteBuf(inp.to_vec())),
+        ("seq", AltData::Seq(inp.to_vec())),
+        ("str-lossy", AltData::Str(text.clone())),
+        ("string-lossy", AltData::OwnedString(text)),
+        ("str-b64", AltData::Str(b64text.clone())),
+        ("bytes-b64", AltData::Bytes(b64text.clone().into_bytes())),
+        ("seq-b64", AltData::Seq(b64text.clone().into_bytes())),
+        ("str-hex", AltData::Str(hex::encode(inp))),
+        ("str-0xhex", AltData::Str(format!("0x{}", hex::encode(inp)))),
+    ];
+    let wrapped: Vec<(&str, AltData)> = vec![
+        ("newtype-bytes", AltData::Newtype(Box::new(AltData::Bytes(inp.to_vec())))),
+        ("some-bytes", AltData::Some(Box::new(AltData::Bytes(inp.to_vec())))),
+        ("newtype-str-b64", AltData::Newtype(Box::new(AltData::Str(b64text.clone())))),
+        ("some-str-b64", AltData::Some(Box::new(AltData::Str(b64text)))),
+    ];
+    routes.extend(wrapped);
+    let mut tried = 0usize;
+    let mut ok = 0usize;
+    let mut panics = 0usize;
+    for (name, data) in routes {
+        for hr in [false, true] {
+            tried += 1;
+            let d = data.clone();
+            match guard(|| Enr::<S::K>::deserialize(AltDe { data: d, hr })) {
+                None => panics += 1,
+                Some(Err(_)) => {}
+                Some(Ok(e)) => {
+                    ok += 1;
+                    writeln!(
+                        out,
+                        "alt scheme={scheme} route={name} hr={} in={} res=ok {}",
+                        hr as u8,
+                        hx(inp),
+                        &rec_line(&e)[4..]
+                    )
+                    .unwrap();
+                }
+            }
+        }
+    }
+    writeln!(out, "alt scheme={scheme} route=all in={} res=summary tried={tried} ok={ok} panics={panics}", hx(inp)).unwrap();
+}
+
+pub fn alt_under(scheme: &str, inp: &[u8], out: &mut String) {
+    match scheme {
+        "k256" => alt_obs::<SK256>(scheme, inp, out),
+        "libsecp" => alt_obs::<SLibsecp>(scheme, inp, out),
+        "ed" => alt_obs::<SEd>(scheme, inp, out),
+        "comb" => alt_obs::<SComb>(scheme, inp, out),
+        "toy" => alt_obs::<SToy>(scheme, inp, out),
+        _ => {}
     }
 }
